@@ -123,7 +123,7 @@ def CoseKey.toValue (k : CoseKey) : Res Value :=
              else .ok m2) with
       | .ok m3 =>
         let m4 := if !k.baseIv.isEmpty then m3 ++ [(.int Gen.key_BASE_IV, .bytes k.baseIv)] else m3
-        match restToPairs k.params [] m4 with
+        match restToPairs k.params (typedSeen m4) m4 with
         | .ok m => .ok (.map m)
         | .err e => .err e
         | .panic p => .panic p
